@@ -17,6 +17,7 @@ mod c05;
 mod c07;
 mod c09;
 mod c11;
+mod c12;
 mod c13;
 mod c14;
 mod c18;
@@ -80,6 +81,7 @@ fn main() {
         "c03_env_files" => c03::env_files(thorough),
         "c10_layer_paths" => c03::layer_paths(thorough),
         "c11_delete" => c11::delete(thorough),
+        "c12_faults" => c12::faults(thorough),
         "c01_layers" => c01::layers(thorough),
         "c02_layers" => c02::layers(thorough),
         "c13_order" => c13::order(thorough),
